@@ -6,11 +6,11 @@
 // two steps; plus `cv list` against the internal lists and (scenario A) values against own arithmetic.
 #include "c20_common.h"
 
-enum K { STEP, CFGX, ADDF0, ADDF1, DELB0, DELB1, DELC0, DELC1, SAVELOAD, ACT_OFF, ACT_ON, GETACT, UPDATE, RESET, CFGALL, CVDELETE, NOPS };
+enum K { STEP, CFGX, ADDF0, ADDF1, DELB0, DELB1, DELC0, DELC1, SAVELOAD, ACT_OFF, ACT_ON, GETACT, UPDATE, RESET, CFGALL, CVDELETE, LOADFILE, NOPS };
 static const char *KN[NOPS] = {"step", "cv config <one more bias>", "cv colvar <1st> addforce", "cv colvar <2nd> addforce", "cv bias <1st> delete",
                                "cv bias <2nd> delete", "cv colvar <1st> delete", "cv colvar <2nd> delete", "cv savetostring + cv loadfromstring",
                                "cv colvar <1st> set active 0", "cv colvar <1st> set active 1", "cv colvar <1st> get active", "cv update", "cv reset",
-                               "cv config <whole scenario>", "cv delete"};
+                               "cv config <whole scenario>", "cv delete", "cv load <state file of a donor run>"};
 
 static std::string force_text(Scn const &sc, int vi)
 {
@@ -82,16 +82,38 @@ static void apply(Run &r, int op)
     break;
   }
   case SAVELOAD: {
+    std::string saved;
     if (r.script) {
       SR s = cvs(px, W({"cv", "savetostring"}));
       ok = s.rc == 0;
+      saved = s.out;
       if (ok) ok = okS(cvs(px, W({"cv", "loadfromstring", s.out})));
     } else {
       std::string t = px.state_text();
+      saved = t;
       direct_guard_begin();
       px.input_stream_from_string("input state string", t);
       int rc = px.colvars->setup_input();
       ok = (direct_guard_end() | rc) == 0;
+    }
+    // loading the string just saved is the identity: saving again gives the same text (whatever was loaded before)
+    // (only for a module that has computed at least one step: before that the state holds place-holder values)
+    if (ok && r.problem.empty() && px.colvars->variables()->size() && r.next > 0) {
+      std::string again = px.state_text();
+      auto squeeze = [](std::string const &t) { std::string o; bool sp = true; for (char ch : t) { bool w = (ch == ' ' || ch == '\n' || ch == '\t'); if (w) { if (!sp) o += ' '; sp = true; } else { o += ch; sp = false; } } return o; };
+      if (squeeze(again) != squeeze(saved)) r.problem = "state-differs-after-loading-the-string-just-saved: " + first_diff(squeeze(saved), squeeze(again)).substr(0, 200);
+    }
+    break;
+  }
+  case LOADFILE: {
+    if (r.script) ok = okS(cvs(px, W({"cv", "load", sc.prefix})));
+    else {
+      direct_guard_begin();
+      int rc = px.set_input_prefix(cvm::state_file_prefix(sc.prefix.c_str()));
+      rc |= px.colvars->setup_input();
+      int e = direct_guard_end() | rc;
+      if (e) px.set_input_prefix("");   // (what cv load does when loading fails)
+      ok = e == 0;
     }
     break;
   }
@@ -214,7 +236,7 @@ static std::string ops_sig(std::vector<int> const &ops)
 {
   // the operations that matter for a signature: the last one
   static const char *SN[NOPS] = {"step", "config-bias", "addforce", "addforce", "bias-delete", "bias-delete", "colvar-delete", "colvar-delete", "save-load",
-                                 "set-active-0", "set-active-1", "get-active", "update", "reset", "config-all", "cv-delete"};
+                                 "set-active-0", "set-active-1", "get-active", "update", "reset", "config-all", "cv-delete", "load-file"};
   return ops.empty() ? "none" : SN[ops.back()];
 }
 
